@@ -74,6 +74,9 @@ class C04(Prop):
         else:
             vals = [rng.randrange(-2000, 2000) / 4 for _ in range(n)]
         return {"kind": kind, "n": n, "vals": vals, "tsamp": rng.choice((64e-6, 1e-3, 0.000327680)),
+                # a spectrum may hold more bins than `header.nsamples // 2 + 1` (zero-padded or externally computed
+                # transform wrapped with the time series' header): every bin written must come back
+                "nshort": rng.choice((0, 0, 1, 2, 7)) if kind in ("spec", "fft") else 0,
                 "tstart": rng.choice((58000.0, 59123.456789012)), "dm": rng.choice((0.0, 56.75, 123.4))}
 
     def _block_case(self, rng):
@@ -223,7 +226,7 @@ class C04(Prop):
     def _fseries(self, case, d, name):
         from sigpyproc.fourierseries import FourierSeries
 
-        h = mk_header(1, 32, nsamples=2 * (case["n"] - 1) if case["n"] > 1 else 1, tsamp=case["tsamp"],
+        h = mk_header(1, 32, nsamples=max(1, 2 * (case["n"] - 1) - case.get("nshort", 0)) if case["n"] > 1 else 1, tsamp=case["tsamp"],
                       tstart=case["tstart"], dm=case["dm"], data_type="complex spectrum", filename=str(d / name))
         v = np.array(case["vals"], dtype=np.float32).view(np.complex64)
         return FourierSeries(v, h)
